@@ -529,8 +529,8 @@ func BuildPool(e *Eco, r *RNG, n int, extra []string) (*Pool, []string) {
 		}
 	}
 	clust0, nClust := r.Intn(nClusters), 0
-	nSib, nDec, nPseudo, nFam := 0, 0, 0, 0
-	capClust, capSib, capDec, capFam := minInt(nClusters, 1+n/6), minInt(10, 1+n/20), minInt(10, 1+n/12), minInt(16, 1+n/10)
+	nSib, nDec, nPseudo, nFam, nRune := 0, 0, 0, 0, 0
+	capClust, capSib, capDec, capFam, capRune := minInt(nClusters, 1+n/6), minInt(10, 1+n/20), minInt(10, 1+n/12), minInt(16, 1+n/10), minInt(4, 1+n/60)
 	// the maintainers' own test inputs: available to the crossover, a few join the pool
 	hv, _ := harvestedFor(e)
 	for k, i := range r.Perm(len(hv)) {
@@ -704,6 +704,13 @@ func BuildPool(e *Eco, r *RNG, n int, extra []string) (*Pool, []string) {
 				add(t)
 			}
 			nDec++
+		case tries%16 == 7 && nRune < capRune && tries > 16:
+			// one rune outside ASCII of class digit or letter, with relatives (variants.go); the
+			// ecosystems that reject such a rune lose nothing but the parse attempts
+			for _, t := range runeClassFamily(r, s) {
+				add(t)
+			}
+			nRune++
 		}
 		if e.Name == "golang" && nPseudo < 2 {
 			if fam := golangPseudoFamily(r, s); fam != nil {
